@@ -213,6 +213,12 @@ def observe(M, D, pairs=False):
     V = numpy.arange(1., 2 * nc + 1).reshape(nc, 2) - 2.
     if not eq(M @ V, D @ V):
         return 'M @ V = {} != {}'.format(numpy.asarray(M @ V).tolist(), (D @ V).tolist())
+    for extra in ((nc, 2), (2, 3), (1, 2, 2)):   # operands with more than two axes: the contraction is over the FIRST axis of the operand
+        X = (numpy.arange(1., nc * int(numpy.prod(extra)) + 1).reshape((nc,) + extra) % 5) - 1.5
+        want = numpy.einsum('ij,j...->i...', D, X)
+        got = M @ X
+        if not eq(got, want):
+            return 'M @ X for X of shape {} = {} != {}'.format(X.shape, numpy.asarray(got).tolist(), want.tolist())
     for tol in (0, .3, 1.6):
         s = M.rowsupp(tol)
         if s.dtype != bool or s.tolist() != (abs(D) > tol).any(axis=1).tolist():
